@@ -354,6 +354,44 @@ pub fn k5_crash(shape: &[(usize, bool)], l: usize, ms: u64) {
     std::mem::forget(ff2);
 }
 
+// k8: a crash at a rollover left the index entry of the interrupted append on disk while the new data file holds fewer bytes than the entry
+// claims (the state is written directly; one harness per shorter length, arbitrary bytes); re-open: the repair must drop the entry and slip back into
+// the previous data file; then a further append that FITS into that file: the handle state the repair leaves behind (head file, head id,
+// item count) must be the one the surviving prefix needs -- the on-disk invariant holds for prefix ++ [new]
+pub fn k8_crash_reopen_append_read(shape: &[(usize, bool)], l: usize, ms: u64, l2: usize, cd: usize) {
+    let mut g = state_from(shape);
+    let n = g.n;
+    let head_file = if n == 0 { 0 } else { g.file[n - 1] };
+    let head_bytes = if n == 0 { 0 } else { g.end[n - 1] };
+    assert!(head_bytes + l as u64 > ms); // generated for rollover parameters only
+    let new_file = head_file as usize + 1;
+    ctl::create(new_file);
+    assert!(cd < l); // the data of the interrupted append is short by at least one byte (length concrete per harness, bytes arbitrary)
+    let mut k = 0;
+    while k < cd {
+        let b: u8 = kani::any();
+        ctl::push(new_file, b);
+        k += 1;
+    }
+    put_index_entry(new_file as u32, l as u64);
+    // ---- re-open
+    let ff2 = FreezerFilesBuilder::new(PathBuf::new()).max_file_size(ms).enable_compression(false).build();
+    assert!(ff2.is_ok());
+    let mut ff2 = ff2.unwrap();
+    ff2.preopen().unwrap();
+    let m = (ff2.number() - 1) as usize;
+    assert!(m == n);
+    // ---- a further append on the repaired state
+    let b2 = sym_bytes(l2);
+    let ra = ff2.append(m as u64 + 1, &b2[..l2]);
+    assert!(ra.is_ok());
+    g.len[m] = l2;
+    g.bytes[m] = b2;
+    assert!(inv(&g, m + 1));
+    kani::cover!(head_bytes + (l2 as u64) <= ms, "repair slipped back into a data file with room for the next item");
+    std::mem::forget(ff2);
+}
+
 // k6: truncate inside/below the head file, then append: the prefix and the new item satisfy the invariant
 pub fn k6_truncate_append(shape: &[(usize, bool)], t: usize, l: usize) {
     let mut g = state_from(shape);
